@@ -17,7 +17,8 @@ def LFacts (tree : Array ParseNode) (root m0 : Nat) (M : Array (Option Nat)) : P
   (∀ x kx : Nat, m0 ≤ kx → M[kx]? = some (some x) → Sub tree root x) ∧
   (∀ x kx y c : Nat, m0 ≤ kx → M[kx]? = some (some x) → Sub tree root y → IsChild tree y c → Sub tree c x →
     ILink tree y c ∨ (OolChild tree y c ∧ ∃ s, Sched tree (InTree tree root) root c s y)) ∧
-  (∀ (x kx : Nat) (pn : ParseNode), m0 ≤ kx → M[kx]? = some (some x) → tree[x]? = some pn → pn.definition ≠ .group)
+  (∀ (x kx : Nat) (pn : ParseNode), m0 ≤ kx → M[kx]? = some (some x) → tree[x]? = some pn → pn.definition ≠ .group) ∧
+  (∀ (x kx : Nat), m0 ≤ kx → M[kx]? = some (some x) → ∃ pn, tree[x]? = some pn)
 
 mutual
 theorem CP.toTree (V : Validated root tree G) : ∀ {x cp : Nat}, Sub tree root x → CP tree G root x cp →
@@ -210,7 +211,7 @@ theorem buildCore_lifo (V : Validated root tree G) (fuel : Nat) (data : BState F
   refine sat_bind (rootLoop_lifo parseFloat V fuel fuel ph0 _ hinv ho hl) (fun ctx hctx => ?_)
   obtain ⟨ph', hinv', ho', hl'⟩ := hctx
   split
-  · refine ⟨fun x z hp => hl'.ordL x z ?_, ?_, ?_, ?_⟩
+  · refine ⟨fun x z hp => hl'.ordL x z ?_, ?_, ?_, ?_, ?_⟩
     · obtain ⟨r1, r2, hrel, h1, h2⟩ := hp
       exact ⟨r1, r2, hrel.mono (fun y hy => inTree_G V hy), h1, h2⟩
     · intro x kx hkx hmx
@@ -234,6 +235,11 @@ theorem buildCore_lifo (V : Validated root tree G) (fuel : Nat) (data : BState F
           rw [this] at hcv; rcases hcv with h | h <;> cases h
     · intro x kx pn hkx hmx hpn hd
       exact hl'.noGroup x pn hpn hd ⟨kx, hkx, hmx⟩
+    · intro x kx hkx hmx
+      have := ho'.1.attrVisited x ⟨kx, hkx, hmx⟩
+      have hxr := hl'.reach x (by rcases this with h | h <;> rw [h] <;> intro h' <;> cases h')
+      obtain ⟨pn, hpn, _⟩ := V.closed x (sub_G V V.rootIn hxr)
+      exact ⟨pn, hpn⟩
   · exact sat_buildErr
 
 /-- after a successful `build`: the out-of-line parts are emitted last-pushed-first -/
@@ -255,7 +261,7 @@ theorem build_lifo (fuel root : Nat) (data : BState F) :
       split at hv
       · cases hv; rfl
       · rw [Array.getElem?_eq_none hk] at hv; cases hv
-    refine ⟨?_, ?_, ?_, ?_⟩
+    refine ⟨?_, ?_, ?_, ?_, ?_⟩
     · intro x z hp
       obtain ⟨r1, r2, ⟨ρ, s1, k1, s2, k2, _, _, _, ⟨pn, h1, _⟩, _⟩, _⟩ := hp
       exact absurd h1 (hnone _ _)
@@ -264,6 +270,8 @@ theorem build_lifo (fuel root : Nat) (data : BState F) :
     · intro x kx y c hkx hmx
       have := hm kx _ hkx hmx; cases this
     · intro x kx pn hkx hmx
+      have := hm kx _ hkx hmx; cases this
+    · intro x kx hkx hmx
       have := hm kx _ hkx hmx; cases this
   · cases hv : validateParseTree root tree with
     | ok u =>
